@@ -29,14 +29,16 @@ func main() {
 	rounds := flag.Int("rounds", 1, "passes over the codec x buffer x transport grid")
 	maxCalls := flag.Int("calls", 64, "largest number of concurrent calls")
 	workers := flag.Int("workers", 8, "connections exercised in parallel")
+	chunkStep := flag.Int("chunkstep", 1, "stride of the second cut in the exhaustive two-cut chunk schedules (1 = every pair of offsets)")
 	dl := flag.Int("deadline", 8, "seconds before a run counts as hung")
 	cases := flag.String("cases", "/verif/build/c18/cases", "directory for the model case files")
 	flag.Parse()
 	deadline = time.Duration(*dl) * time.Second
 	seed := vh.SeedFromEnv()
 	r := vh.NewRng(seed)
-	sum := vh.NewSummary("unit: codec (GoRpc x 5 formats, MsgpackSpecRpc) x ReaderBufferSize x WriterBufferSize in {0,1,7,64,4096} x request/response x 1..4 frames x chunk schedule (coalesced, single bytes, random, one frame plus the head of the next, mixed) x whole/cut stream; non-trivial = more than one frame, a fragmenting schedule or a cut; distinct by all of these. rpc: the same codecs and buffer grid x transport (net.Pipe, fragmenting/coalescing pipe in 4 modes, TCP loopback, the documented bufio-wrapped connection) x N in 1..64 concurrent calls (Echo struct, Add, Str, Fail) + Close protocol; distinct by (codec, transport, rbs, wbs, N). close: Close unblocks a pending header read, per codec x transport")
+	sum := vh.NewSummary("unit: codec (GoRpc x 5 formats, MsgpackSpecRpc) x ReaderBufferSize x WriterBufferSize in {0,1,7,64,4096} x request/response x 1..4 frames x chunk schedule (coalesced, single bytes, random, one frame plus the head of the next, mixed) x whole/cut stream; non-trivial = more than one frame, a fragmenting schedule or a cut; distinct by all of these. chunk: three short frames per codec x rbs in {0,1,64} x direction under every schedule [a, b, rest] (direct oracle; distinct by codec, rbs, direction). rpc: the same codecs and buffer grid x transport (net.Pipe, fragmenting/coalescing pipe in 4 modes, TCP loopback, the documented bufio-wrapped connection) x N in 1..64 concurrent calls (Echo struct, Add, Str, Fail) + Close protocol; distinct by (codec, transport, rbs, wbs, N). close: Close unblocks a pending header read, per codec x transport")
 	unitStream(r.Fork(), *nUnit, *cases, sum)
+	chunkStream(r.Fork(), *chunkStep, sum)
 
 	// ---- rpc grid ----
 	bufs := []int{0, 1, 7, 64, 4096}
